@@ -2,10 +2,11 @@ import SpVerif.J
 import SpVerif.Model.Factory
 import SpVerif.Ops.CfdpHeader
 import SpVerif.Ops.DirectiveFixed
+import SpVerif.Ops.DirectiveVar
 import SpVerif.Ops.FileData
 /-!
 Driver ops for the PDU factory / holder model (`fac_`). PDU objects are rendered with the field
-functions of the owning Ops modules (`Ops.DirectiveFixed`, `Ops.FileData`), so the payloads are the
+functions of the owning Ops modules (`Ops.DirectiveFixed`, `Ops.DirectiveVar`, `Ops.FileData`), so the payloads are the
 ones the owning properties already tie to the real classes. Kinds travel as their index in
 `Kind.all` (0 File Data, 1 EOF, 2 Finished, 3 ACK, 4 Metadata, 5 NAK, 6 Prompt, 7 Keep Alive).
 -/
@@ -24,6 +25,9 @@ def pduFieldsJ : AnyPdu → Json
   | .nak x => Ops.DirectiveFixed.withRaw (Ops.DirectiveFixed.nakFields x) x.pack
   | .prompt x => Ops.DirectiveFixed.withRaw (Ops.DirectiveFixed.promptFields x) x.pack
   | .keepAlive x => Ops.DirectiveFixed.withRaw (Ops.DirectiveFixed.kaFields x) x.pack
+  | .eof x => Ops.DirectiveFixed.withRaw (Ops.DirectiveVar.eofFields x) x.pack
+  | .finished x => Ops.DirectiveFixed.withRaw (Ops.DirectiveVar.finFields x) x.pack
+  | .metadata x => Ops.DirectiveFixed.withRaw (Ops.DirectiveVar.mdFields x) x.pack
 
 def pduJ (p : AnyPdu) : Json := obj [("kind", jn p.kind.toNat), ("pdu", pduFieldsJ p)]
 
@@ -75,7 +79,9 @@ def getAny (j : Json) : R (Py AnyPdu) := do
   | .nak => do let x ← Ops.DirectiveFixed.getNak j; pure (AnyPdu.nak <$> x)
   | .prompt => do let x ← Ops.DirectiveFixed.getPrompt j; pure (AnyPdu.prompt <$> x)
   | .keepAlive => do let x ← Ops.DirectiveFixed.getKa j; pure (AnyPdu.keepAlive <$> x)
-  | _ => .error "kind without a model"
+  | .eof => do let x ← Ops.DirectiveVar.getEof j; pure (AnyPdu.eof <$> x)
+  | .finished => do let x ← Ops.DirectiveVar.getFin j; pure (AnyPdu.finished <$> x)
+  | .metadata => do let x ← Ops.DirectiveVar.getMd j; pure (AnyPdu.metadata <$> x)
 
 def ops : List (String × Handler) := [
   -- construct, pack, hand `packed ++ suffix` to the factory
@@ -96,9 +102,7 @@ def ops : List (String × Handler) := [
       | none => pure (res holderJ (pure (none : Holder)))
       | some k =>
         let k ← kindOfNat k.toNat
-        pure (res holderJ (decodeAs k (← getHex j "raw")))),
-  -- kinds without a model (stage 1): checked on the implementation side only
-  ("fac_impl_only", fun _ => pure (obj [("ok", obj [("checked", jb true)])]))
+        pure (res holderJ (decodeAs k (← getHex j "raw"))))
 ]
 
 end SpVerif.Ops.Factory
